@@ -97,9 +97,9 @@ AsFound/C02.vos AsFound/C02.vok AsFound/C02.required_vos: AsFound/C02.v Model/Gi
 Model/Tracking.vo Model/Tracking.glob Model/Tracking.v.beautified Model/Tracking.required_vo: Model/Tracking.v 
 Model/Tracking.vio: Model/Tracking.v 
 Model/Tracking.vos Model/Tracking.vok Model/Tracking.required_vos: Model/Tracking.v 
-Model/RunPaths.vo Model/RunPaths.glob Model/RunPaths.v.beautified Model/RunPaths.required_vo: Model/RunPaths.v Lib/Bytes.vo
-Model/RunPaths.vio: Model/RunPaths.v Lib/Bytes.vio
-Model/RunPaths.vos Model/RunPaths.vok Model/RunPaths.required_vos: Model/RunPaths.v Lib/Bytes.vos
+Model/RunPaths.vo Model/RunPaths.glob Model/RunPaths.v.beautified Model/RunPaths.required_vo: Model/RunPaths.v Lib/Bytes.vo Lib/Val.vo
+Model/RunPaths.vio: Model/RunPaths.v Lib/Bytes.vio Lib/Val.vio
+Model/RunPaths.vos Model/RunPaths.vok Model/RunPaths.required_vos: Model/RunPaths.v Lib/Bytes.vos Lib/Val.vos
 Proofs/TrackingProof.vo Proofs/TrackingProof.glob Proofs/TrackingProof.v.beautified Proofs/TrackingProof.required_vo: Proofs/TrackingProof.v Model/Tracking.vo
 Proofs/TrackingProof.vio: Proofs/TrackingProof.v Model/Tracking.vio
 Proofs/TrackingProof.vos Proofs/TrackingProof.vok Proofs/TrackingProof.required_vos: Proofs/TrackingProof.v Model/Tracking.vos
